@@ -315,6 +315,38 @@ def openChain (C : Crypto) (s : List (SKey × SVal)) (proposer : List Nat) (ts :
         | none => C.zero }
   | none => initChain C s proposer ts
 
+/-! ### crash states of `Chain::append`: the process stops between two of its store writes -/
+
+/-- the store writes of an accepted `Chain::append`, in program order: `store_block` (the block record), then —
+    after `add_chain_edge`, whose node/edge records belong to the graph engine and are never read by
+    `initialize` — `save_height` (the height record) -/
+def appendWrites (c : ChainSt) (b : Block) : List (SKey × SVal) :=
+  [(.block (c.height + 1), .block b), (.chainMeta, .height (c.height + 1))]
+
+def putAll (s : List (SKey × SVal)) (ws : List (SKey × SVal)) : List (SKey × SVal) :=
+  ws.foldl (fun s kv => sput s kv.1 kv.2) s
+
+/-- the store a process leaves behind when it stops inside `Chain::append` of a block that passed the checks,
+    after the first `k` store writes: `k = 0` nothing written, `k = 1` block record written and the height record
+    still the old one, `k ≥ 2` both written (the store of the completed append) -/
+def appendCrashStore (C : Crypto) (c : ChainSt) (b : Block) (k : Nat) : List (SKey × SVal) :=
+  putAll c.store ((appendWrites c (fixTxRoot C b)).take k)
+
+/-- NOT the current code — the variant of `Chain::initialize` that keeps the block found by the walk BACK and
+    uses it for the tip hash instead of reading the block at the final height again (regression fixture
+    seeded/C16_2): the walk FORWARD advances the height but not the cached block.  Kept only for the witness
+    `cached_walk_back_tip_breaks_chain_witness` in `Props3.lean`. -/
+def openChainWalkBackTip (C : Crypto) (s : List (SKey × SVal)) (proposer : List Nat) (ts : Nat) : ChainSt :=
+  match loadHeight s with
+  | some h0 =>
+    let hb := walkBack s h0
+    let h := walkFwd s s.length hb
+    { store := sput s .chainMeta (.height h), height := h,
+      tip := match blockAt s hb with
+        | some t => t.header.hash C
+        | none => C.zero }
+  | none => initChain C s proposer ts
+
 /-! ### `TensorChain`: workspaces and the commit pipeline -/
 
 inductive WsState where
@@ -585,6 +617,19 @@ def reopenNode (C : Crypto) (n : Node) (ts : Nat) : Node :=
   { n with cfg := { n.cfg with registry := some [(n.cfg.nodeId, n.cfg.key)] },
            chain := openChain C n.chain.store n.cfg.nodeId ts,
            active := [] }
+
+/-- the node a process leaves behind when it stops inside the `Chain::append` of an uninterrupted
+    `commit w ts` (the five steps prepare … build have run, the block passed `append`'s checks), after the first
+    `k` store writes of that append (`appendCrashStore`); `none` when the call never reaches an accepted append.
+    Only the store matters afterwards: a restart (`reopenNode`) re-derives height and tip from it. -/
+def commitCrashInAppend (C : Crypto) (n : Node) (w ts k : Nat) : Option Node :=
+  let r := commitRun C 5 n (Local.init w ts)
+  match r.2.pc, r.2.block with
+  | .append, some b =>
+    match append C r.1.cfg.registry r.1.chain b with
+    | .ok _ => some { r.1 with chain := { r.1.chain with store := appendCrashStore C r.1.chain b k } }
+    | .error _ => none
+  | _, _ => none
 
 /-- every client call: the sequential calls, the two registry calls, and the restart -/
 inductive OpR where
